@@ -724,4 +724,6 @@ def run(ctx):
     # C07/list-after-producers)
     from rules import c07 as _c07m
     _c07m.rule_memory_blocks_writers(ctx, R="C06/memory-blocks-writers")
-
+    # the stream reaches the caller's file where the directory says, wherever in the destination the dump starts (rules/families.py)
+    from rules import families as _famd
+    _famd.destination(ctx, "C06")
